@@ -63,6 +63,7 @@ func guarded(f func()) (status string) {
 }
 
 type aopts struct {
+	globals                 bool // use Apply/ApplyIndent with the package variables instead of per-call options
 	neg, allow, ensure, esc bool
 	limit                   int64
 	indent                  string
@@ -90,7 +91,16 @@ func runApply(doc, patch []byte, a aopts) applyObs {
 			return
 		}
 		ob.decOK = true
-		out, err := p.ApplyIndentWithOptions(doc, a.indent, a.mk())
+		var out []byte
+		if a.globals {
+			// the package defaults: NewApplyOptions reads them on every Apply/ApplyIndent
+			sn, sl := jsonpatch.SupportNegativeIndices, jsonpatch.AccumulatedCopySizeLimit
+			jsonpatch.SupportNegativeIndices, jsonpatch.AccumulatedCopySizeLimit = a.neg, a.limit
+			out, err = p.ApplyIndent(doc, a.indent)
+			jsonpatch.SupportNegativeIndices, jsonpatch.AccumulatedCopySizeLimit = sn, sl
+		} else {
+			out, err = p.ApplyIndentWithOptions(doc, a.indent, a.mk())
+		}
 		ob.out = out
 		ob.outNil = out == nil
 		if err != nil {
@@ -185,6 +195,9 @@ func applyStream(cfg applyCfg, n int) {
 		}
 		if cfg.limitMode == 1 {
 			a.limit = int64(pick64(0, 1, 4, 5, 10, 20, 40, 80, 1000000))
+			if !a.allow && !a.ensure && a.esc && chance(0.3) {
+				a.globals = true
+			}
 		}
 		if cfg.extra && chance(0.5) {
 			a.indent = pick(" ", "  ", "\t", "    ", " \t")
